@@ -22,10 +22,9 @@ structure UtcFields where
   deriving DecidableEq, Repr
 
 def utcOfEpoch (t : Int) : UtcFields :=
-  let days := t / 86400
+  let c := civilFromDays (t / 86400)
   let sod := (t % 86400).toNat
-  let (y, m, d) := civilFromDays days
-  { year := y, month := m, day := d, hour := sod / 3600, minute := sod / 60 % 60,
+  { year := c.1, month := c.2.1, day := c.2.2, hour := sod / 3600, minute := sod / 60 % 60,
     second := sod % 60 }
 
 /-- `to_offset(UtcOffset::UTC)` -/
